@@ -11,10 +11,12 @@ RULE = ("SIBLINGS: one abstract configuration (version, pattern (v2 or legacy), 
         "quoted/unquoted strings, TOML siblings literal/basic strings and inline/multi-line arrays. The parsed Config (via "
         "config.init through the adapter) must agree field by field and the same history (show, update --dry, update with "
         "FakeRepo, show) must produce the same exit codes, announced versions, diffs, bytes of non-config files, VCS argv and "
-        "hook env in every sibling. distinct_nontrivial = distinct (settings, op, dry, success, flags, legacy) compared.")
+        "hook env in every sibling. distinct_nontrivial = distinct (settings, op, dry, success, flags, legacy) compared."
+        " BADCONFIG: a file key that lost its `=` in setup.cfg and in bumpver.toml must be accepted or refused alike.")
 ASSUMPTIONS = ["only configurations expressible in both syntaxes are generated (no leading/trailing blanks, no empty strings that INI cannot hold)",
                "the implicit self-pattern legitimately mirrors each sibling's own quoting and is compared against that sibling's own line"]
-COMPONENTS = {"bumpver config loader, cli show/update": "real", "VCS": "FakeRepo", "files": "six real scratch directories per run"}
+COMPONENTS = {"bumpver config loader, cli show/update": "real", "VCS": "FakeRepo", "files": "six real scratch directories per run",
+              "config (BADCONFIG)": "real loader on the same syntax slip in setup.cfg and bumpver.toml"}
 CAMPAIGNS = [Siblings("C18", quick=2000, thorough=50000),
              BadConfig("C18", "no_delim", quick=300, thorough=6000)]
 
